@@ -334,9 +334,13 @@ func (n *ForNode) Render(w io.Writer, ctx *RenderContext) error {
 
 					// Try to apply the filter
 					if ctx.env != nil {
-						filterFunc, found := ctx.env.filters[filterName]
-						if found {
-							filteredResult, err := filterFunc(baseValue)
+						if _, found := ctx.env.filters[filterName]; found {
+							filteredResult, err := ctx.ApplyFilter(filterName, baseValue)
+							var violation *SecurityViolation
+							if errors.As(err, &violation) {
+								// A filter the sandbox forbids is an error, not a fallback
+								return err
+							}
 							if err == nil && filteredResult != nil {
 								if IsDebugEnabled() {
 									LogDebug("ForNode: Manual filter application successful")
@@ -704,7 +708,8 @@ func (n *ExtendsNode) Render(w io.Writer, ctx *RenderContext) error {
 	// Create a new context for the parent template, but with our child blocks
 	// This ensures the parent template knows it's being extended and preserves our blocks
 	parentCtx := NewRenderContext(ctx.env, ctx.context, ctx.engine)
-	parentCtx.extending = true // Flag that the parent is being extended
+	parentCtx.extending = true          // Flag that the parent is being extended
+	parentCtx.sandboxed = ctx.sandboxed // The parent template stays inside the sandbox
 
 	// Pass along the parent template as lastLoadedTemplate for relative path resolution
 	parentCtx.lastLoadedTemplate = parentTemplate
@@ -847,6 +852,9 @@ func (n *IncludeNode) Render(w io.Writer, ctx *RenderContext) error {
 		includeCtx = NewRenderContext(ctx.env, contextVars, ctx.engine)
 		// Set the template as the lastLoadedTemplate for relative path resolutionn			includeCtx.lastLoadedTemplate = template
 		defer includeCtx.Release()
+
+		// A template included from inside a sandbox stays inside it
+		includeCtx.sandboxed = ctx.sandboxed
 
 		// If sandboxed, enable sandbox mode
 		if n.sandboxed {
@@ -1117,6 +1125,7 @@ func (n *MacroNode) CallMacro(w io.Writer, ctx *RenderContext, args ...interface
 	// Create a new context for the macro
 	macroCtx := NewRenderContext(ctx.env, nil, ctx.engine)
 	macroCtx.parent = ctx
+	macroCtx.sandboxed = ctx.sandboxed // A macro called from inside a sandbox stays inside it
 
 	// Ensure context is released even in error paths
 	defer macroCtx.Release()
@@ -1225,6 +1234,7 @@ func (n *ImportNode) Render(w io.Writer, ctx *RenderContext) error {
 
 	// Create a new context for the imported template
 	importCtx := NewRenderContext(ctx.env, nil, ctx.engine)
+	importCtx.sandboxed = ctx.sandboxed // An imported template stays inside the sandbox
 	// Set the template as the lastLoadedTemplate for relative path resolutionn	importCtx.lastLoadedTemplate = template
 
 	// Ensure context is released even in error paths
@@ -1316,6 +1326,7 @@ func (n *FromImportNode) Render(w io.Writer, ctx *RenderContext) error {
 
 	// Create a new context for the imported template
 	importCtx := NewRenderContext(ctx.env, nil, ctx.engine)
+	importCtx.sandboxed = ctx.sandboxed // An imported template stays inside the sandbox
 	// Set the template as the lastLoadedTemplate for relative path resolutionn	importCtx.lastLoadedTemplate = template
 
 	// Ensure context is released even in error paths
